@@ -117,6 +117,17 @@ def c12_libs(seeds, nsynth):
         d.setdefault("options", {})
         d["options"]["wrap_python"] = bool(d["options"].get("wrap_python", False))
         libs["corpus/" + base] = {"yaml": d, "fname": base + ".yaml"}
+    # classes-only libraries: headers that are empty unless the user supplies code for them
+    libs["special/classes-only"] = {"fname": "conly.yaml", "yaml": {
+        "library": "conly", "cxx_header": "conly.hpp", "options": {"debug": True},
+        "declarations": [{"decl": "class Holder"},
+                         {"decl": "class Worker", "declarations": [{"decl": "Worker()"}, {"decl": "~Worker()"},
+                                                                   {"decl": "int work(int n)"}]}]}}
+    libs["special/empty-class"] = {"fname": "eclass.yaml", "yaml": {
+        "library": "eclass", "cxx_header": "eclass.hpp", "options": {"debug": True},
+        "declarations": [{"decl": "class Token"}, {"decl": "void touch(int n)"},
+                         {"decl": "namespace inner", "declarations": [{"decl": "class Deep"},
+                                                                      {"decl": "int depth()"}]}]}}
     for i in range(nsynth):
         rng = seeds.rng("c12synth", i)
         text, meta = synth.synth_library(rng, i)
@@ -310,7 +321,7 @@ def documented_names(lang, per_lang):
     if lang != "c" or not per_lang.get("cxx"):
         return set()  # (C++ libraries only: a C library has no CXX_* blocks)
     out = set(["CXX_declarations", "C_declarations", "CXX_definitions", "C_definitions"])
-    classes = set()
+    classes = set(per_lang.get("yaml_classes", []))
     for n in list(per_lang.get("uniq", {})) + list(per_lang.get("amb", [])):
         m = re.match(r"^class\.([A-Za-z0-9_]+)\.", n)
         if m:
@@ -445,6 +456,10 @@ def execute_history_c12(spec, camp):
                 for lang, files in outputs_by_lang(tr).items():
                     uniq, amb, skels = collect_blocks(files)
                     per[lang] = {"uniq": {n: norm_body(b) for n, (p, b) in uniq.items()}, "amb": set(amb),
+                                 "yaml_classes": [re.match(r"\s*class\s+(\w+)\s*$", d.get("decl", "")).group(1)
+                                                  for d in (clean.get("declarations") or [])
+                                                  if isinstance(d, dict) and re.match(r"\s*class\s+(\w+)\s*$", d.get("decl", ""))
+                                                  and "cxx_template" not in d and not d.get("options")],
                                  "cxx": str(clean.get("language", "c++")).lower() in ("c++", "cxx")
                                  and any(n.endswith("CXX_definitions") or n.endswith("CXX_declarations")
                                          for n in list(uniq) + list(amb))}
